@@ -472,7 +472,7 @@ def collapse_one(
         # Set a hidden attribute to keep track of recursive instancing.
         if classname.casefold() == 'func_instance':
             setattr(new_ent, RECUR_COUNT_ATTR, inst.recur_count + 1)
-            setattr(new_ent, RECUR_FILES_ATTR, inst.recur_files | {inst.filename.casefold()})
+            setattr(new_ent, RECUR_FILES_ATTR, inst.recur_files | {inst.filename.replace('\\', '/').casefold()})
 
         # Now keyvalues.
         # First extract a rotated angles value, handling the special "pitch" and "yaw" keys.
@@ -585,7 +585,7 @@ def collapse_all(
             return  # No more instances, success!
         for inst_ent in instances:
             inst = Instance.from_entity(inst_ent)
-            if inst.filename.casefold() in inst.recur_files:
+            if inst.filename.replace('\\', '/').casefold() in inst.recur_files:
                 # This file is inside itself. Each round would multiply the number of copies, so
                 # with more than one nested instance we'd never reach the recursion limit.
                 raise RecursionError(f'Loop in instances: "{inst.filename}" contains itself!')
